@@ -157,8 +157,58 @@ def edit_history(ctx: Ctx, newexec: int, tag: str, check_valid=None) -> None:
         pass
 
 
+def nocache_history(ctx: Ctx, newexec: int, tag: str) -> None:
+    """subrun(sv(1)); then the same again in an execution run with cache=False: direct evaluation with cache=False
+    executes sv again, so the sub-scheduler must too (the run configuration reaches the sub-scheduler)."""
+    import importlib.util
+    import sys
+
+    from redun.scheduler import subrun
+
+    d = ctx.scratch / f"c38nc_{tag}"
+    d.mkdir(parents=True, exist_ok=True)
+    modname = f"c38nc_{tag}_{os.getpid()}"
+    counter = d / "count.txt"
+    counter.write_text("")
+    path = d / f"{modname}.py"
+    path.write_text(f"from redun import task\n\nredun_namespace = 'c38nc{tag}'\n\n\n@task()\ndef sv(x):\n"
+                    f"    open({str(counter)!r}, 'a').write('x')\n    return x + 10\n")
+    spec = importlib.util.spec_from_file_location(modname, path)
+    mod = importlib.util.module_from_spec(spec)
+    sys.modules[modname] = mod
+    spec.loader.exec_module(mod)
+    db = simloop.clone_db(ctx.scratch, f"c38nc_{tag}.db")
+    cfg = {"backend": {"db_uri": f"sqlite:///{db}"}}
+    results, counts = [], []
+    for cache in (True, False):
+        bk = simloop.open_backend(db)
+        try:
+            s, dr = simloop.make_scheduler(bk, limits={})
+            expr = subrun(mod.sv(1), executor="default", config=cfg, new_execution=bool(newexec), load_modules=[modname])
+            o = simloop.run_controlled(s, dr, expr, cache=cache, execution_id=str(uuid.uuid4()))
+            results.append(o.get("value", o["outcome"]))
+            counts.append(len(counter.read_text()))
+        finally:
+            simloop.close_backend(bk)
+    ctx.count_eval()
+    ctx.count_impl_trace()
+    ctx.distinct(["nocache-history", newexec])
+    if results != [11, 11] or counts != [1, 2]:
+        ctx.violation(f"subrun(sv(1)) run twice, the second time in an execution with cache=False: results {results}, sv had "
+                      f"executed {counts} times after each run; direct evaluation gives [11, 11] and executes sv once per run "
+                      f"(new_execution={bool(newexec)})",
+                      {"history": "subrun(sv(1)); run(cache=False) subrun(sv(1))", "newexec": newexec, "results": results,
+                       "counts": counts})
+    try:
+        os.unlink(db)
+    except OSError:
+        pass
+
+
 def run(ctx: Ctx) -> None:
     ctx.assume("the sub-scheduler shares the sqlite backend file of the calling scheduler")
+    for ne in (0, 1):
+        nocache_history(ctx, ne, f"n{ne}")
     for ne in (0, 1):
         for cv in (None, "full", "shallow"):
             edit_history(ctx, ne, f"h{ne}{cv or 'd'}", cv)
